@@ -230,7 +230,37 @@ func init() {
 					"targets": []interface{}{Obj{"select": Obj{"kind": "Deployment"},
 						"fieldPaths": []interface{}{"spec.template.spec.containers.[name=" + selName + "].image"}}}}}
 				desc = map[string]interface{}{"mode": "replacement", "element": selName}
+				// a lower layer may have renamed / moved the targets (they then have several ids a select can match)
+				if r.Intn(2) == 0 {
+					if r.Intn(3) != 0 {
+						layerPrefix = pickS(r, []string{"pre-", "x"})
+					}
+					if r.Intn(3) != 0 {
+						layerNs = pickS(r, []string{"prod", "stage"})
+					}
+				}
+				insertAt := 0
+				if r.Intn(2) == 0 {
+					// … and a second target that INSERTS instead of overwriting: a delimiter with an index before the first or past
+					// the last piece — the value arrives exactly once
+					insertAt = []int{-1, 99}[r.Intn(2)]
+					tl := k["replacements"].([]interface{})[0].(Obj)["targets"].([]interface{})
+					k["replacements"].([]interface{})[0].(Obj)["targets"] = append(tl, Obj{"select": Obj{"kind": "ConfigMap"},
+						"fieldPaths": []interface{}{"data.k"}, "options": Obj{"delimiter": ",", "index": float64(insertAt)}})
+					desc.(map[string]interface{})["insertIndex"] = insertAt
+				}
 				predict = func(x *res, out Obj) (string, bool) {
+					if x.kind == "ConfigMap" && insertAt != 0 {
+						want := "v,COPIED"
+						if insertAt < 0 {
+							want = "COPIED,v"
+						}
+						got, _ := getPath(map[string]interface{}(out), ipath(nil, "data", "k"))
+						if got != want {
+							return fmt.Sprintf("replacement with delimiter and index %d into data.k of %s: got %v, one insertion prescribes %q", insertAt, x.name, got, want), false
+						}
+						return "", true
+					}
 					if x.kind != "Deployment" {
 						return "", true
 					}
@@ -321,7 +351,7 @@ func init() {
 				}
 				if what, ok := predict(x, ds[0]); !ok {
 					cls := []string{"patch-target-selection", "image-selection", "replicas-selection", "replacement-selection"}[mode]
-					if mode == 3 {
+					if mode == 3 && x.kind != "ConfigMap" {
 						// recogniser of finding 5: the [name=v] value is used as an UNANCHORED regular expression, so
 						// an element whose name merely CONTAINS v is selected as well
 						sel := desc.(map[string]interface{})["element"].(string)
